@@ -381,6 +381,11 @@ func (b *tbe) Save(ctx context.Context, h backend.Handle, rd backend.RewindReade
 			// a backend with atomic replace overwrites the existing file in one step
 			_ = b.inner.Remove(ctx, normHandle(h))
 		}
+		if rd.Hash() == nil && b.inner.Hasher() != nil {
+			// callers may legitimately pass a reader without content hash (real backends then send
+			// none); the mem backend insists on one, so supply it here instead of failing
+			return b.inner.Save(ctx, h, backend.NewByteReader(data, b.inner.Hasher()))
+		}
 		return b.inner.Save(ctx, h, rd)
 	})
 }
